@@ -15,7 +15,14 @@
 
 void create () { oid = "m"; }
 
-private object connect (int port) { return new ("/vuser.c"); }
+// connect(): `do m connect,<newoid>,<path>` - the driver's mudlib_connect() applies connect(); the master clones the user
+// object (an ordinary, logged clone op of the master) and hands it back
+private object connect (int port) {
+  string c;
+  c = REG->take_connect ();
+  if (stringp (c)) { run_op ("clone," + c); return REG->get (explode (c, ",")[0]); }
+  return new ("/vuser.c");
+}
 // variants (`cfg noroot` / `cfg nobb` / `cfg novb`): the plugin writes /c20/master_<flags>.c files that define these macros
 // and include this file: set_master then finds no get_root_uid() (master keeps "NONAME" / 0) / no get_bb_uid(); bind()
 // finds no valid_bind() (a NULL result refuses)
